@@ -207,7 +207,7 @@ func (self HTTPRequest) GetQuery(key string) string {
 }
 
 // Body implements RequestGetter.Body.
-func (self HTTPRequest) GetBody() []byte {
+func (self *HTTPRequest) GetBody() []byte {
 	if self.rawBody != nil {
 		return self.rawBody
 	}
@@ -215,6 +215,8 @@ func (self HTTPRequest) GetBody() []byte {
 	if err != nil {
 		return nil
 	}
+	// the body stream can be read only once: keep what was read for later lookups
+	self.rawBody = buf
 	return buf
 }
 
@@ -241,11 +243,18 @@ func (self HTTPRequest) GetParam(key string) string {
 // MapBody implements RequestGetter.MapBody.
 func (self *HTTPRequest) GetMapBody(key string) string {
 	if self.BodyMap == nil && self.Request != nil {
+		if self.rawBody != nil {
+			// the body stream has been consumed by GetBody(): parse what it read
+			self.Request.Body = ioutil.NopCloser(bytes.NewReader(self.rawBody))
+		}
 		v, err := NewHTTPRequestFromStdReq(self.Request)
 		if err != nil || v.BodyMap == nil {
 			return ""
 		}
 		self.BodyMap = v.BodyMap
+		if self.rawBody == nil {
+			self.rawBody = v.rawBody
+		}
 	}
 	switch t := self.BodyMap.(type) {
 	case *jsonCache:
